@@ -85,45 +85,46 @@ type loopInfo struct {
 }
 
 type fnState struct {
-	e         *Engine
-	fn        *ssa.Function
-	fc        *spec.FuncContract
-	log       []string
-	declared  map[string]bool
-	nfresh    int
-	vals      map[ssa.Value]SV
-	exitEnv   map[*ssa.BasicBlock]*env
-	exitRch   map[*ssa.BasicBlock]string
-	cur       *env
-	reach     string
-	blk       *ssa.BasicBlock
-	obls      []*Obligation
-	entry     *env
-	loops     map[*ssa.BasicBlock]*loopInfo
-	loopList  []*loopInfo
-	cellSort  map[string]string
-	direct    map[*ssa.Alloc]bool
-	sites     map[string]int
-	curPos    token.Pos
-	discover  bool
-	params    map[string]SV
-	results   []string // result names
-	retSeen   int
-	inlining  int // depth of inlined calls
-	inlineRet *SV // result captured from an inlined callee return
-	strLits   map[string]string
-	invLookup *loopInfo         // loop whose invariant is being translated (scopes local names)
-	sitePos   token.Pos         // source position of the site clause being translated
-	quantElts []string          // element-location terms met in the quantifier body being translated
-	quant     int               // >0 while translating the body of a quantifier
-	sentinels []string          // constants of leaf error sentinels seen so far
-	defs      map[string]string // terms behind the names introduced by define
-	notes     map[string]bool
-	rangeIt   map[ssa.Value]string // Range instr -> cell key of its position
-	frameK    map[string]string    // heap map key -> skolem location for the frame check
-	detFacts  []detFact
-	localSyms map[string]bool // symbols that are private to one run (renamed in the second copy of an NI check)
-	failed    error
+	assertFired map[int]bool // site assertions whose anchor statement was reached
+	e           *Engine
+	fn          *ssa.Function
+	fc          *spec.FuncContract
+	log         []string
+	declared    map[string]bool
+	nfresh      int
+	vals        map[ssa.Value]SV
+	exitEnv     map[*ssa.BasicBlock]*env
+	exitRch     map[*ssa.BasicBlock]string
+	cur         *env
+	reach       string
+	blk         *ssa.BasicBlock
+	obls        []*Obligation
+	entry       *env
+	loops       map[*ssa.BasicBlock]*loopInfo
+	loopList    []*loopInfo
+	cellSort    map[string]string
+	direct      map[*ssa.Alloc]bool
+	sites       map[string]int
+	curPos      token.Pos
+	discover    bool
+	params      map[string]SV
+	results     []string // result names
+	retSeen     int
+	inlining    int // depth of inlined calls
+	inlineRet   *SV // result captured from an inlined callee return
+	strLits     map[string]string
+	invLookup   *loopInfo         // loop whose invariant is being translated (scopes local names)
+	sitePos     token.Pos         // source position of the site clause being translated
+	quantElts   []string          // element-location terms met in the quantifier body being translated
+	quant       int               // >0 while translating the body of a quantifier
+	sentinels   []string          // constants of leaf error sentinels seen so far
+	defs        map[string]string // terms behind the names introduced by define
+	notes       map[string]bool
+	rangeIt     map[ssa.Value]string // Range instr -> cell key of its position
+	frameK      map[string]string    // heap map key -> skolem location for the frame check
+	detFacts    []detFact
+	localSyms   map[string]bool // symbols that are private to one run (renamed in the second copy of an NI check)
+	failed      error
 }
 
 func (f *fnState) key() string { return f.fn.String() }
@@ -732,6 +733,23 @@ func (e *Engine) VerifyFunc(fn *ssa.Function) ([]*Obligation, *fnState, error) {
 		f.cellSort[k] = s
 	}
 	f.run()
+	if fc != nil && f.failed == nil {
+		// an assertion whose anchor statement is no longer in the function would silently disappear: report it as
+		// an obligation that cannot be generated (the contract no longer matches the code)
+		for i, a := range fc.Asserts {
+			if f.assertFired[i] || a.Every || a.Assume {
+				continue
+			}
+			site := fmt.Sprintf("%s %q: %s", a.Where, a.Needle, normSite(a.Clause.Text))
+			base := f.key() + "/ASSERT"
+			if a.Clause.Label != "" {
+				base += "[" + a.Clause.Label + "]"
+			}
+			f.obls = append(f.obls, &Obligation{ID: base + "/" + site, Func: f.key(), Class: "ASSERT", Label: a.Clause.Label, Site: site, Goal: "false",
+				Reach: "true", prefix: 0, Expected: "unsat", fs: f,
+				Note: fmt.Sprintf("no statement containing %q is reached in %s any more: the assertion anchored there cannot be generated", a.Needle, fn.Name())})
+		}
+	}
 	return f.obls, f, f.failed
 }
 
@@ -1169,6 +1187,10 @@ func (f *fnState) siteAsserts(ins ssa.Instruction, where string) {
 				continue
 			}
 		}
+		if f.assertFired == nil {
+			f.assertFired = map[int]bool{}
+		}
+		f.assertFired[i] = true
 		actx := f.specCtx(nil)
 		actx.locals = true
 		f.sitePos = ins.Pos()
